@@ -39,7 +39,7 @@ def optional_inst(name):
     return INSTS[name][2] == FIELD
 
 
-def build(name, san="asan", opt="-O1"):
+def build(name, san="asan-ubrecover", opt="-O1"):
     ct, n, st, thr, large = INSTS[name][:5]
     defs = ['CFG_NAME="%s"' % name, "CFG_CT=%s" % ct, "CFG_N=%d" % n, "CFG_ST=%s" % st, "CFG_THROW=%d" % thr, "CFG_LARGE=%d" % large]
     if len(INSTS[name]) > 5:
@@ -50,18 +50,18 @@ def build(name, san="asan", opt="-O1"):
 def plan(tier, which):
     """returns list of (inst, extra args, san, opt)"""
     if which == "C14":
-        base = [("P3c-t", [], "asan", "-O1"), ("F3-t", [], "asan", "-O1"), ("S3-t", [], "asan", "-O1"), ("P3u-t", [], "asan", "-O1")]
+        base = [("P3c-t", [], "asan-ubrecover", "-O1"), ("F3-t", [], "asan-ubrecover", "-O1"), ("S3-t", [], "asan-ubrecover", "-O1"), ("P3u-t", [], "asan-ubrecover", "-O1")]
         return base
     if tier == "quick":
         small = ["P3c", "P3c-t", "P3u-t", "F3", "F3-t", "S3", "S3-t", "P3h-t", "S3h-t"]
         if which == "C02":
             small = ["P3c-t", "P3u-t", "F3-t", "S3-t", "P3c", "S3", "P3h-t"]
-        pl = [(n, [], "asan", "-O1") for n in small]
-        pl += [("P200-t", ["--depth", "2", "--max-states", "3000"], "asan", "-O1"),
-               ("F256-t", ["--depth", "2", "--max-states", "3000"], "asan", "-O1")]
+        pl = [(n, [], "asan-ubrecover", "-O1") for n in small]
+        pl += [("P200-t", ["--depth", "2", "--max-states", "3000"], "asan-ubrecover", "-O1"),
+               ("F256-t", ["--depth", "2", "--max-states", "3000"], "asan-ubrecover", "-O1")]
         return pl
     small = ["P3c", "P3c-t", "P3u-t", "F3", "F3-t", "S3", "S3-t", "P3h-t", "S3h-t", "F3h"]
-    pl = [(n, [], "asan", "-O1") for n in small]
+    pl = [(n, [], "asan-ubrecover", "-O1") for n in small]
     pl += [(n, [], "none", "-O2") for n in ["P4c-t", "F4-t", "S4-t", "S4", "P4u"]]
     pl += [("P200-t", ["--depth", "3", "--max-states", "40000"], "none", "-O2"),
            ("P255-t", ["--depth", "3", "--max-states", "40000"], "none", "-O2"),
@@ -119,7 +119,7 @@ def run(ctx, which):
 def replay(ctx, rec, which):
     inst = rec["harness"]
     pl = [p for p in plan(rec.get("tier", "quick"), which) if p[0] == inst]
-    san, opt = (pl[0][2], pl[0][3]) if pl else ("asan", "-O1")
+    san, opt = (pl[0][2], pl[0][3]) if pl else ("asan-ubrecover", "-O1")
     sub = vlib.Ctx(ctx.pid, ctx.tier, ctx.level, 0)
     sub.run_harness(build(inst, san, opt), rec["args"], tag=inst)
     for v in sub.viols:
